@@ -5,12 +5,17 @@ EXTENDS Integers, Sequences
 (* names that are prefixes / suffixes of each other *)
 MC_NamesWide   == {"x", "x_1", "xx", "m_x", "k"}
 MC_NamesNarrow == {"x", "x_1", "xx"}
-MC_NamesAll    == {"x", "x_1", "xx", "m_x", "k", "H__x"}
+(* names that Python's float() / complex() would read as numbers (inf, nan, infinity in any  *)
+(* letter case; j), next to one ordinary name                                                *)
+MC_NamesWords  == {"inf", "nan", "NaN", "Infinity", "INF", "j", "x"}
+MC_NamesSim    == {"x", "x_1", "xx", "m_x", "k", "inf", "NaN", "j"}
+MC_NamesAll    == {"x", "x_1", "xx", "m_x", "k", "H__x", "inf", "nan", "NaN", "Infinity", "INF", "j"}
 
 (* every literal form: integer, float, exponent (contains the letter e), hex (contains f) *)
 MC_NumbersWide   == {"1", "2.5", "1e5", "0x1f"}
 MC_NumbersQuick  == {"2.5", "1e5", "0x1f"}     \* the literal 1 enters through the lag suffix x(k-1)
 MC_NumbersNarrow == {"2"}
+MC_NumbersWords  == {"2", "1e5"}
 MC_NumbersHex    == {"0x1f"}
 MC_NumbersAll    == {"1", "2", "2.5", "1e5", "0x1f"}
 
@@ -65,6 +70,35 @@ MC_MapsQuick == {
     << Pair("x", "x_1"), Pair("x_1", "xx"), Pair("xx", "x") >>,
     << Pair("x", "H__x"), Pair("x_1", "H__x") >>,
     << Pair("k", "x"), Pair("m_x", "k") >> }
+
+(* numeric words as keys, as images and as bystanders *)
+MC_MapsWords == {
+    << >>,
+    << Pair("inf", "x") >>,                                        \* word -> ordinary name
+    << Pair("INF", "H__x") >>,                                     \* qualification of a word (INF = inflation)
+    << Pair("x", "nan") >>,                                        \* ordinary name -> word
+    << Pair("x", "xx") >>,                                         \* words are bystanders
+    << Pair("nan", "x"), Pair("x", "nan") >>,                      \* swap of a word and a name
+    << Pair("NaN", "nan"), Pair("nan", "NaN") >>,                  \* swap of two spellings
+    << Pair("Infinity", "inf"), Pair("inf", "INF") >>,             \* chain
+    << Pair("inf", "H__x"), Pair("INF", "H__x") >>,                \* merge
+    << Pair("j", "x"), Pair("NaN", "j") >> }
+
+MC_PairsWords == { [target |-> "inf", repl |-> "x"],
+                   [target |-> "nan", repl |-> "inf"],
+                   [target |-> "j",   repl |-> "H__x"],
+                   [target |-> "x",   repl |-> "NaN"] }
+MC_PairsWordsQuick == { [target |-> "nan", repl |-> "inf"],
+                        [target |-> "j",   repl |-> "H__x"] }
+MC_MapsWordsQuick == {
+    << Pair("inf", "x") >>,
+    << Pair("INF", "H__x") >>,
+    << Pair("x", "nan") >>,
+    << Pair("nan", "x"), Pair("x", "nan") >>,
+    << Pair("NaN", "nan"), Pair("nan", "NaN") >>,
+    << Pair("Infinity", "inf"), Pair("inf", "INF") >>,
+    << Pair("inf", "H__x"), Pair("INF", "H__x") >>,
+    << Pair("j", "x"), Pair("NaN", "j") >> }
 
 MC_PairsAll == [target : {"x", "x_1", "xx", "k"}, repl : MapTargets]
 MC_PairsNone == {}
